@@ -180,6 +180,7 @@ def run_shard(spec):
     simulated, not_simulated, best, best_run = set(), {}, {}, {}
     common_centre_needed = set()
     smooth_needed = set()
+    transcribed = set()
     entries = ET.EXAMPLES
     work = []
     replay_state = None
@@ -272,6 +273,41 @@ def run_shard(spec):
                                  "member_seed": ms, "dir_seed": ds, "dim": dim,
                                  "what": "%s(%s): a real run on %s achieves %.8g, the library returns %.8g (ratio %.4f)"
                                          % (e["func"], kw, r["members"], perf, bound, ratio)})
+        # the method the docstring documents, transcribed independently (pv/ref/methods.py), on the same functions and starts:
+        # same performance as the example's own body, and not above the bound
+        try:
+            from pv.ref import methods as MT
+        except Exception:
+            MT = None
+        if MT is not None and name in MT.METHODS and forced is None:
+            from pv.ref import hard
+            trng = random.Random("c09t/%d/%s/%r" % (spec["seed"], name, sorted(kw.items(), key=str)))
+            cs = hard.corners(trng, 24)
+            for k in range(8):
+                th = {i: cs[(k * 3 + i) % len(cs)] for i in range(4)}
+                try:
+                    with warnings.catch_warnings():
+                        warnings.simplefilter("ignore")
+                        pa, pb, r = MT.compare(name, kw, "t%d" % k, "t%d/%d" % (spec["seed"], k), 1 + k % 3,
+                                               adversary={"thetas": th, "smooth_only": True})
+                except Exception:
+                    counters["transcription_runs_not_possible"] = counters.get("transcription_runs_not_possible", 0) + 1
+                    continue
+                counters["transcription_runs_compared"] = counters.get("transcription_runs_compared", 0) + 1
+                transcribed.add(name)
+                if abs(pa - pb) > 1e-6 * max(abs(pa), abs(pb)) + 1e-11 and not any(v["key"] == "example_body_is_not_the_documented_method:" + name for v in viol):
+                    viol.append({"key": "example_body_is_not_the_documented_method:" + name, "example": name, "kwargs": kw,
+                                 "member_seed": "t%d" % k, "dir_seed": "t%d/%d" % (spec["seed"], k), "dim": 1 + k % 3,
+                                 "state": {"thetas": {str(i): list(v_) for i, v_ in th.items()}}, "transcription": True,
+                                 "what": "%s(%s): on %s from the same start, the example's body gives %.10g, the method its docstring "
+                                         "documents (independent transcription) gives %.10g: the example does not model the documented "
+                                         "method" % (e["func"], kw, r["members"], pa, pb)})
+                if pb > bound + slack * abs(bound) + 1e-7 and not any(v["key"] == "real_run_beats_bound:" + name for v in viol):
+                    viol.append({"key": "real_run_beats_bound:" + name, "example": name, "kwargs": kw,
+                                 "member_seed": "t%d" % k, "dir_seed": "t%d/%d" % (spec["seed"], k), "dim": 1 + k % 3,
+                                 "state": {"thetas": {str(i): list(v_) for i, v_ in th.items()}}, "transcription": True,
+                                 "what": "%s(%s): the documented method (independent transcription) on %s achieves %.8g, the library "
+                                         "returns %.8g" % (e["func"], kw, r["members"], pb, bound)})
         # hill-climb on the starting direction from the best run found (time-boxed)
         if nrun and forced is None and best_run.get(name) is not None and time.time() - tstart < spec.get("budget_s", 8.0) * 1.5:
             import numpy as np
@@ -354,4 +390,4 @@ def run_shard(spec):
             "observations": notes[:10],
             "extra": {"shard_wall_s": round(time.time() - t0, 1), "simulated": sorted(simulated),
                       "best_ratio_list": ["%s:%.4f" % (k, v) for k, v in sorted(best.items())],
-                      "not_simulated": sorted(set(not_simulated) - simulated)}}
+                      "not_simulated": sorted(set(not_simulated) - simulated), "transcribed_methods_compared": sorted(transcribed)}}
